@@ -209,6 +209,12 @@ def build_row_cert(cls, kalg, sig_alg, rnd, key_id=None, serial=None,
     p = pool()[kalg]
     ca, subject = p['ca'], p['k']
     critb = b''.join(CRIT_ENC[n]() for n in sorted(crit))
+    fc_value = 'ls -l'
+    if 'force-command' in crit and rnd.random() < 0.25:
+        # an understood option with an empty value is still understood
+        fc_value = ''
+        critb = critb.replace(S('force-command') + S(S('ls -l')),
+                              S('force-command') + S(S('')))
     extb = b''
     if ext == 'empty':
         extb += S('aaa-unknown@verif') + S(b'')
@@ -234,7 +240,7 @@ def build_row_cert(cls, kalg, sig_alg, rnd, key_id=None, serial=None,
                          nonce=rnd.randbytes(32), signer=signer)
     put = {'principals': names, 'key_id': key_id, 'serial': serial,
            'valid_after': A, 'valid_before': B,
-           'force-command': 'ls -l' if 'force-command' in crit else None,
+           'force-command': fc_value if 'force-command' in crit else None,
            'source-address': ['10.0.0.0/8', '::1/128']
            if 'source-address' in crit else None}
     blob = bytearray(b''.join(f for _, f in fields))
@@ -520,10 +526,15 @@ class SigWorld:
         elif l['ns'] == 'nomatch':
             opts.append(['namespaces="git"', 'namespaces="*,!file,!mail"',
                          'namespaces="files"'][variant % 3])
+        epoch = ['19700101000000Z', '19700101Z', '197001010000Z'][variant % 3]
         if l['va'] == 'set':
             opts.append(f'valid-after="{ts(A)}"')
+        elif l['va'] == 'epoch':
+            opts.append(f'valid-after="{epoch}"')
         if l['vb'] == 'set':
             opts.append(f'valid-before="{ts(B)}"')
+        elif l['vb'] == 'epoch':
+            opts.append(f'valid-before="{epoch}"')
         if variant % 2:
             opts.reverse()
         key = {'signer': self.k, 'ca': self.ca, 'other': self.other}[l['key']]
@@ -827,7 +838,6 @@ def live_identity_rows(rows, kalg='ssh-ed25519', sig_alg=b'ssh-ed25519'):
         port = 2300
         for names, items in by_list.items():
             port += 1
-            hcert = w.cert('host', list(names), 0, 5)
             hk = asyncssh.import_private_key(
                 hostkey.export_private_key('openssh'))
             # the host certificate certifies the server's own host key
